@@ -7,7 +7,179 @@ import LcdbModel.Props.CrcTablesOk
 import LcdbModel.Props.CodingProps
 import LcdbModel.Props.CrcProps
 import LcdbModel.Model.LogFormat
+import LcdbModel.Lemmas.LogFormat
 namespace Lcdb.C15
 open Lcdb
+
+/-! ### 1 block-offset invariant and fuel sufficiency of the writer -/
+
+/-- `lw->block_offset ≤ kBlockSize` is preserved by `ldb_writer_add_record` -/
+theorem addRecord_off_le (off : Nat) (rec : Bytes) (h : off ≤ logBlockSize) :
+    (addRecord off rec).2 ≤ logBlockSize := addRecord_off_le' off rec h
+
+theorem blockOffset_le (off : Nat) (rs : List Bytes) (h : off ≤ logBlockSize) :
+    writeOff off rs ≤ logBlockSize := writeOff_le off rs h
+
+/-- any fuel `≥ length + 2` gives the same result: the model's bound on the do/while is never hit -/
+theorem addRecordGo_fuel (f1 f2 off : Nat) (left : Bytes) (b : Bool)
+    (h1 : left.length + 2 ≤ f1) (h2 : left.length + 2 ≤ f2) (hoff : off ≤ logBlockSize) :
+    addRecordGo f1 off left b = addRecordGo f2 off left b :=
+  Lcdb.addRecordGo_fuel f1 f2 off left b h1 h2 hoff
+
+/-! ### 2 the tracked block offset is the file position modulo the block size -/
+
+theorem addRecord_offset (off : Nat) (rec : Bytes) (h : off ≤ logBlockSize) :
+    (addRecord off rec).2 % logBlockSize = (off + (addRecord off rec).1.length) % logBlockSize :=
+  addRecordGo_offset _ off rec true h
+
+/-! ### 3 writing is compositional; reopening a log for append (log reuse) -/
+
+/-- at a block boundary the writer behaves the same whether it tracks `32768` or `0` -/
+theorem addRecord_off_block (rec : Bytes) : addRecord logBlockSize rec = addRecord 0 rec :=
+  Lcdb.addRecord_off_block rec
+
+theorem write_compositional (off : Nat) (a b : List Bytes) (h : off ≤ logBlockSize) :
+    ∃ off', off' ≤ logBlockSize ∧
+      off' % logBlockSize = (off + (writeFrom off a).length) % logBlockSize ∧
+      writeFrom off (a ++ b) = writeFrom off a ++ writeFrom off' b :=
+  ⟨writeOff off a, writeOff_le off a h, writeOff_mod off a h, writeFrom_append off a b⟩
+
+/-- `ldb_writer_init(dst, length)` on an existing log continues exactly where the first writer stopped -/
+theorem write_reuse (a b : List Bytes) :
+    writeAll 0 (a ++ b) = writeAll 0 a ++ writeAll (writeAll 0 a).length b := by
+  have h0 : (0 : Nat) ≤ logBlockSize := Nat.zero_le _
+  have hle := writeOff_le 0 a h0
+  have hmod := writeOff_mod 0 a h0
+  show writeFrom 0 (a ++ b) = writeFrom 0 a ++ writeFrom ((writeFrom 0 a).length % logBlockSize) b
+  rw [writeFrom_append]
+  congr 1
+  rw [Nat.zero_add] at hmod
+  rw [← hmod]
+  by_cases hc : writeOff 0 a = logBlockSize
+  · rw [hc, Nat.mod_self, writeFrom_off_block]
+  · rw [Nat.mod_eq_of_lt (by omega)]
+
+/-! ### 4, 5 round trip and torn tail -/
+
+/-- number of records whose last byte lies before the cut at `n` bytes -/
+def wholeBefore (rs : List Bytes) (n : Nat) : Nat := ((recordEnds 0 rs).filter (· ≤ n)).length
+
+/-- `recordEnds 0 rs` really is the list of lengths of `writeAll 0` of the non-empty prefixes -/
+theorem recordEnds_spec (rs : List Bytes) :
+    recordEnds 0 rs = (List.range rs.length).map fun i => (writeAll 0 (rs.take (i + 1))).length := rfl
+
+/-- A log written from an empty file and cut at an arbitrary byte position `n` reads back as exactly
+    the records lying wholly before the cut, and the reader reports no corruption. -/
+theorem read_truncated (rs : List Bytes) (n : Nat) :
+    readAll ((writeAll 0 rs).take n) = (rs.take (wholeBefore rs n), []) := by
+  have hw : writeAll 0 rs = writeFrom logBlockSize rs := by
+    show writeFrom 0 rs = _
+    rw [writeFrom_off_block]
+  have hev : readAllEvents true ((writeAll 0 rs).take n)
+      = (rs.take (wholeBefore rs n)).map REvent.record := by
+    unfold readAllEvents
+    rw [hw, readAllGo_write rs logBlockSize n _ _ [] (Nat.le_refl _) (RInv_init _) (Nat.le_refl _),
+      wholeFrom_off_block, wholeFrom_eq, List.nil_append]
+    rfl
+  unfold readAll
+  simp only [hev, recordsOf_map_record, dropsOf_map_record]
+
+theorem wholeBefore_le (rs : List Bytes) (n : Nat) : wholeBefore rs n ≤ rs.length := by
+  unfold wholeBefore
+  refine Nat.le_trans (List.length_filter_le _ _) ?_
+  simp [recordEnds]
+
+/-- the untruncated file contains every record -/
+theorem wholeBefore_full (rs : List Bytes) (n : Nat) (h : (writeAll 0 rs).length ≤ n) :
+    wholeBefore rs n = rs.length := by
+  unfold wholeBefore
+  rw [← wholeFrom_eq]
+  exact wholeFrom_ge rs 0 _ h
+
+/-- every record sequence written from an empty file reads back identically, no drop reported -/
+theorem read_write (rs : List Bytes) : readAll (writeAll 0 rs) = (rs, []) := by
+  have := read_truncated rs (writeAll 0 rs).length
+  rw [List.take_length] at this
+  rw [this]
+  rw [wholeBefore_full rs _ (Nat.le_refl _), List.take_length]
+
+/-! ### 6 soundness of the reader on arbitrary bytes (checksums on)
+
+`readAllEvents` is a total function (structural recursion on fuel), so the reader terminates on
+every input; `readAllEvents_total` records the trivial consequence.  `read_sound`: whatever the
+bytes, every record handed to the caller is the concatenation of the payloads of a chain of
+physical records typed FULL or FIRST MIDDLE* LAST, each of which occurs verbatim in the source as
+`emitPhysical ty payload`, i.e. with a 7-byte header whose stored masked CRC equals
+`crcMask (crc32c (ty ‖ payload))`, whose stored length is `payload.length`, and whose type is `ty`. -/
+
+theorem readAllEvents_total (checksum : Bool) (src : Bytes) : ∃ ev, readAllEvents checksum src = ev :=
+  ⟨_, rfl⟩
+
+theorem read_sound (src : Bytes) :
+    ∀ r ∈ recordsOf (readAllEvents true src),
+      ∃ frags : List (Nat × Bytes),
+        r = (frags.map (·.2)).flatten ∧
+        (frags.map (·.1) = [tyFull] ∨
+          ∃ k, frags.map (·.1) = tyFirst :: (List.replicate k tyMiddle ++ [tyLast])) ∧
+        ∀ f ∈ frags, emitPhysical f.1 f.2 <:+: src := by
+  intro r hr
+  have hinit : SrcInv src { buffer := [], rest := src, eof := false } := List.suffix_refl _
+  exact readAllGo_sound src (src.length + 2) _ [] hinit (by simp [recordsOf]) r hr
+
+/-- same statement for the pair returned by `readAll` -/
+theorem readAll_sound (src : Bytes) :
+    ∀ r ∈ (readAll src).1,
+      ∃ frags : List (Nat × Bytes),
+        r = (frags.map (·.2)).flatten ∧
+        (frags.map (·.1) = [tyFull] ∨
+          ∃ k, frags.map (·.1) = tyFirst :: (List.replicate k tyMiddle ++ [tyLast])) ∧
+        ∀ f ∈ frags, emitPhysical f.1 f.2 <:+: src :=
+  read_sound src
+
+/-- the header of an `emitPhysical` really carries the masked CRC of type ‖ payload -/
+theorem emitPhysical_crc (ty : Nat) (frag : Bytes) :
+    crcUnmask (BitVec.ofNat 32 (fixedDec ((emitPhysical ty frag).take 4)))
+      = crc32c (UInt8.ofNat ty :: frag) := by
+  obtain ⟨c0, c1, c2, c3, he, hc⟩ := emitPhysical_cons ty frag
+  rw [he]
+  simp only [List.take_succ_cons, List.take_zero]
+  rw [hc, mask_unmask]
+  exact (crc32c_append [UInt8.ofNat ty] frag).symm
+
+/-! ### 7 non-vacuity / concrete instances -/
+
+set_option maxRecDepth 100000 in
+example : readAll (writeAll 0 [[1, 2, 3], [], List.replicate 300 7])
+    = ([[1, 2, 3], [], List.replicate 300 7], []) := by decide +kernel
+
+/-- a record spanning two blocks (instance of the theorem; kernel evaluation of 40 kB CRCs is slow) -/
+example : readAll (writeAll 0 [[1, 2, 3], [], List.replicate 40000 7])
+    = ([[1, 2, 3], [], List.replicate 40000 7], []) := read_write _
+
+example : (writeAll 0 [[1, 2, 3], [4, 5]]).length = 19 := by decide +kernel
+example : wholeBefore [[1, 2, 3], [4, 5]] 18 = 1 := by decide +kernel
+example : wholeBefore [[1, 2, 3], [4, 5]] 9 = 0 := by decide +kernel
+
+/-- torn tail: the cut record silently disappears -/
+example : readAll ((writeAll 0 [[1, 2, 3], [4, 5]]).take 18) = ([[1, 2, 3]], []) := by decide +kernel
+
+/-- the same through the theorem -/
+example : readAll ((writeAll 0 [[1, 2, 3], [4, 5]]).take 18) = ([[1, 2, 3], [4, 5]].take 1, []) := by
+  have h : wholeBefore [[1, 2, 3], [4, 5]] 18 = 1 := by decide +kernel
+  rw [← h]; exact read_truncated _ 18
+
+/-- damage that is not a truncation IS reported (so "no drop" in `read_truncated` is not vacuous):
+    flipping the last payload byte of the first record drops the rest of the block (19 bytes) -/
+example : readAll ((writeAll 0 [[1, 2, 3], [4, 5]]).set 9 0) = ([], [19]) := by decide +kernel
+
+/-- log reuse on concrete data -/
+example : writeAll 0 ([[1], [2, 3]] ++ [[4]]) = writeAll 0 [[1], [2, 3]] ++ writeAll 17 [[4]] :=
+  write_reuse [[1], [2, 3]] [[4]]
+
+/-- the writer pads a block trailer shorter than a header with zeros -/
+example : (addRecord 32765 [9]).1.take 3 = [0, 0, 0] ∧ (addRecord 32765 [9]).2 = 8 := by decide +kernel
+
+/-- exactly seven bytes left: an empty FIRST fragment is emitted, then the block switches -/
+example : (addRecord 32761 [9]).2 = 8 ∧ (addRecord 32761 [9]).1.length = 15 := by decide +kernel
 
 end Lcdb.C15
